@@ -68,8 +68,17 @@ CodeCompact(rs, now) ==
 (* both outcomes so that neither reading is flagged.                        *)
 BackInsideWindow(rs, now) == rs # <<>> /\ now >= Head(rs).t /\ now < Newest(rs)
 
+(* Once the clock HAS stepped backwards inside the window, entries are no    *)
+(* longer held in order of age (a younger one can sit in front of an older  *)
+(* one).  The statement speaks about a monotone clock and about jumps       *)
+(* behind everything; for such a FIFO "purge what expired, then evict the   *)
+(* eldest if full" and the code's "evict one if full, then purge from the   *)
+(* front" differ (found by the thorough configuration, 5 operations).  The  *)
+(* property-level machine allows either there.                              *)
+Sorted(rs) == \A i, j \in 1..Len(rs) : i < j => rs[i].t <= rs[j].t
 Outcomes(rs, now) ==
     IF BackInsideWindow(rs, now) THEN {CodeCompact(rs, now), <<>>}
+    ELSE IF ~Sorted(rs) THEN {CodeCompact(rs, now), PropCompact(rs, now), <<>>}
     ELSE {PropCompact(rs, now)}
 
 Insert(rs, v, now) ==
